@@ -141,6 +141,9 @@ def run(ctx):
                         e["single_iv"] = False
             ind = U.render(s2, style=rng.choice([0, 1, 2]), rng=random.Random(k), options=options or None, parameters=parameters)
             flags = {"disable_analytic_solver": rng.random() < 0.25}
+            if rng.random() < 0.35:      # the user's text is returned for (some) first-order variables: it, too, must use the configured names
+                firsts_ = [e_["name"] for e_ in s2["entries"] if e_["order"] == 1 and e_["kind"] == "ode"]
+                flags["preserve_expressions"] = True if (rng.random() < 0.5 or not firsts_) else rng.sample(firsts_, rng.randint(1, len(firsts_)))
             tasks.append({"fn": "sysimpl.run_c08", "indict": ind, "flags": flags, "api_timeout": 25, "timeout": 90})
             meta.append((s2, hs or "__h", mk or "__d", mode))
     # the same input analysed in ONE interpreter under several names for the step size and the derivative marker (deterministic
